@@ -63,7 +63,8 @@ def gs_nodes(s, prm, x, grid, y):
     mode = prm.get("mode")
     if mode is not None:
         old = {"linear": "bilinear", "nearest": "nearest", "cubic": "bicubic"}
-        attrs["mode"] = old[mode] if s < 20 else mode
+        # raw: the string is written as given (attribute grid: old spellings, empty string, a new spelling under an old opset)
+        attrs["mode"] = mode if prm.get("raw") else (old[mode] if s < 20 else mode)
     if prm.get("padding_mode") is not None:
         attrs["padding_mode"] = prm["padding_mode"]
     if prm.get("align_corners") is not None:
@@ -82,7 +83,8 @@ def gn_nodes(s, prm, x, scale, bias, y):
 
 def draw_dft(rng, s):
     rank = rng.choice([3, 3, 4])
-    axes = [None, 1, -2] if rank == 3 else [None, 1, 2, -2, -3]
+    # every legal spelling: [0, r-2] and [-r, -2]; 0 is the one value of `axis` that is falsy and differs from the DFT-17 default 1
+    axes = [None, 0, 1, -2, -3] if rank == 3 else [None, 0, 1, 2, -2, -3, -4]
     inverse = rng.choice([None, 0, 1])
     onesided = rng.choice([None, 0, 1]) if inverse in (None, 0) else rng.choice([None, 0])
     return {"rank": rank, "axis": rng.choice(axes), "inverse": inverse, "onesided": onesided,
@@ -103,7 +105,7 @@ def draw_gn(rng, s):
 
 
 def dft_x(prm):
-    return [1, 4, 1] if prm["rank"] == 3 else [1, 3, 4, 1]
+    return [2, 4, 1] if prm["rank"] == 3 else [2, 3, 4, 1]
 
 
 # ----------------------------------------------------------------------------- templates
@@ -157,7 +159,8 @@ def t_gn(s, prm):
     nn, _ = gn_nodes(s, prm, xin, "scale", "bias", "y")
     nodes += nn
     m = _model(nodes, [_vi("x", xshape), _vi("scale", sshape), _vi("bias", sshape)], [_vi("y", xshape)], s)
-    return m, {"x": ("f", [1, c, 4]), "scale": ("f", [n]), "bias": ("f", [n])}
+    # small_x: inputs of variance ~1e-6, where the value of epsilon (0.0 / default 1e-5 / 0.5) decides the result
+    return m, {"x": ("s" if prm.get("small_x") else "f", [1, c, 4]), "scale": ("f", [n]), "bias": ("f", [n])}
 
 
 def _sub_op(s, prm, x, y, pre):
@@ -292,6 +295,8 @@ def make_feeds(spec, seed):
             out[k] = r.uniform(-2, 2, size=shp).astype(np.float32)
         elif kind == "g":
             out[k] = r.uniform(-1.2, 1.2, size=shp).astype(np.float32)
+        elif kind == "s":
+            out[k] = (r.uniform(-2, 2, size=shp) * 1e-3).astype(np.float32)
         elif kind == "b":
             out[k] = np.array(bool(r.randint(0, 2)))
     return out
